@@ -1,7 +1,7 @@
 """econftool edit / revert (ToolEdit.tla): beyond the listed properties, part of the C19 check.
 
    M  MC_ToolEdit: every tree made of a subset of six files x every sequence of up to MaxSteps commands
-      (edit as drop-in / --full with six editors, revert); invariants = what the commands promise.
+      (edit as drop-in / --full with seven editors, revert); invariants = what the commands promise.
    F  every reached state is exported (initial files, commands, expected set of files, expected `show`) and replayed
       against the real tool under $ECONFTOOL_ROOT with $EDITOR scripts that do what the model's editors do.
    The tool is run as root with --yes; `revert` looks for the main file at /etc/<name> WITHOUT the root prefix
@@ -24,7 +24,7 @@ def safe_names():
 
 
 def cfg_text(maxsteps, export, invs=True):
-    inv = "".join("INVARIANT %s\n" % x for x in ("EditTouchesOnlyTarget", "EditFailsIff", "KeepKeepsConfiguration", "AppendedKeyIsShown", "CommentedLineIsInert",
+    inv = "".join("INVARIANT %s\n" % x for x in ("EditTouchesOnlyTarget", "EditFailsIff", "KeepKeepsConfiguration", "AppendedKeyIsShown", "CommentedLineIsInert", "DroppedKey",
                                                  "EditedTreeReadable", "RevertRemovesDropins", "RevertedShow", "RevertUnmasks", "MaskedVendorDropinIsInert")) if invs else ""
     return "SPECIFICATION Spec\nCHECK_DEADLOCK FALSE\n%sCONSTRAINT ExportCase\nCONSTANTS\n MaxSteps = %d\n Export = %s\n" % (inv, maxsteps, "TRUE" if export else "FALSE")
 
@@ -42,6 +42,9 @@ def editor_script(path, ed, tr=None):
         lines = [l.translate(tr) for l in lines]
     if ed["kind"] == "keep":
         body = "exit 0\n"
+    elif ed["kind"] == "dropkey":
+        # delete the line that assigns to the key, whatever layout and delimiter the writer chose
+        body = "sed -i -e '/^[ \t]*%s[ \t]*[=:]/d' \"$1\"\n" % core.uncodes(ed["lines"][0])
     elif ed["kind"] in ("append", "comment"):
         body = "printf '%%s\\n' %s >> \"$1\"\n" % " ".join(q(l) for l in lines)
     else:
@@ -179,9 +182,9 @@ def check_edit(tool, tier, rnd, base, verdict):
     return {"states": r.distinct, "transitions": r.generated, "replayed": len(recs), "agree": ok,
             "rule": "MC_ToolEdit (ToolEdit.tla over the concrete file system of Econf.tla): every subset of six files (vendor main with a comment, "
                     "vendor drop-in, local main, local drop-in, malformed local drop-in, a vendor drop-in with the local drop-in's name) x every sequence of up to %d commands among edit {drop-in, --full} x editor "
-                    "{keep, append a key, append a two-line key, replace everything, append a malformed line, append a commented-out assignment} and revert; invariants: a failed edit changes nothing, "
+                    "{keep, append a key, append a two-line key, replace everything, append a malformed line, append a commented-out assignment, delete the line of a key} and revert; invariants: a failed edit changes nothing, "
                     "a successful one exactly its target; it fails iff the tree is unreadable, the edited text malformed or empty (Dev_EditToNothingFails); keeping the text keeps the configuration; "
-                    "an appended key is shown; an appended commented-out assignment is inert (same configuration, the commented key absent); the edited tree is readable; revert leaves nothing below the drop-in directory and everything else alone; a vendor drop-in masked by a local file of the same name decides nothing and is read again after revert; the "
+                    "an appended key is shown; an appended commented-out assignment is inert (same configuration, the commented key absent); a key deleted in the editor is gone with --full unless an earlier drop-in edit holds a copy, and is still there after a drop-in edit (the drop-in cannot take away what another file defines), everything else unchanged; the edited tree is readable; revert leaves nothing below the drop-in directory and everything else alone; a vendor drop-in masked by a local file of the same name decides nothing and is read again after revert; the "
                     "non-property 'a replaced value is shown' is refuted (vacuity control). %d exported states replayed against the built econftool (--yes, "
                     "$EDITOR = shell scripts doing what the model's editors do, $ECONFTOOL_ROOT = scratch root, every second one with blanks, delimiter, comment, "
                     "bracket and format characters in its name; configuration names %s; with the default characters, under the renaming --delimiters=: --comment=';' of files and editor texts, and with the two-character sets ':=' / '#;'): exit status of every command, the set of files afterwards and the "
